@@ -154,6 +154,7 @@ struct World {
     hist_file: Option<u64>,
     range: Option<BigUint>,
     fails: Vec<(String, String)>,
+    counts: Vec<(String, u64)>,
 }
 
 fn new_lane_rt() -> tokio::runtime::Runtime {
@@ -214,6 +215,7 @@ impl World {
             hist_file: None,
             range: None,
             fails: vec![],
+            counts: vec![],
         };
         w.open();
         w
@@ -923,6 +925,8 @@ impl World {
         // every other byte prefix of each torn file, on a copy of the directory
         let baseline: Vec<(u64, String)> = ks.iter().map(|k| (*k, self.get_str(*k))).collect();
         for (k, full) in &fulls {
+            self.counts.push(("torn-writes".into(), 1));
+            self.counts.push(("torn-prefix-reopens".into(), prefix_lengths(full.len()).len() as u64));
             for n in prefix_lengths(full.len()) {
                 if let Some(what) = self.reopen_with_prefix(*k, &full[..n], &baseline) {
                     self.fail("restart-torn-prefix", format!("key {k}: file torn to {n} of {} bytes: {what}", full.len()));
@@ -1233,7 +1237,7 @@ impl Runner {
             }
         };
         let op = rec.split_whitespace().next().unwrap_or("").to_string();
-        let class = res.split_whitespace().next().unwrap_or("").to_string();
+        let class = if op == "run" { res.replace(' ', "-") } else { res.split_whitespace().next().unwrap_or("").to_string() };
         if matches!(op.as_str(), "put" | "run" | "deliver" | "crash" | "get") {
             let class = if class.parse::<u64>().is_ok() { "some".to_string() } else { class };
             self.out.count(&format!("{op}:{class}"));
@@ -1250,6 +1254,9 @@ impl Runner {
             let input = w.hist.join(" ; ");
             for (clause, what) in w.fails.drain(..) {
                 self.out.oracle_fail(&clause, &input, &what);
+            }
+            for (key, n) in w.counts.drain(..) {
+                self.out.count_n(&key, n);
             }
         }
     }
